@@ -263,6 +263,12 @@ enum Op {
     /// `exit_after` / `kill_after` through a `DerivedActorRef` (textual twins of the two above)
     Dea(u64),
     Dka(u64),
+    /// the free functions `ractor::time::{send_after, send_interval, exit_after, kill_after}` called
+    /// directly with an `ActorCell` (the message type is named by the caller)
+    Csa(u64),
+    Csi(u64),
+    Cea(u64),
+    Cka(u64),
     Adv(u64),
     AdvAbort(u64, usize),
     AdvStop(u64),
@@ -288,6 +294,10 @@ impl Op {
             Op::Ka(p) => format!("ka {p}"),
             Op::Dea(p) => format!("dea {p}"),
             Op::Dka(p) => format!("dka {p}"),
+            Op::Csa(p) => format!("csa {p}"),
+            Op::Csi(p) => format!("csi {p}"),
+            Op::Cea(p) => format!("cea {p}"),
+            Op::Cka(p) => format!("cka {p}"),
             Op::Adv(d) => format!("adv {d}"),
             Op::AdvAbort(d, i) => format!("advabort {d} {i}"),
             Op::AdvStop(d) => format!("advstop {d}"),
@@ -313,6 +323,10 @@ impl Op {
             "ka" => Op::Ka(n(1)?),
             "dea" => Op::Dea(n(1)?),
             "dka" => Op::Dka(n(1)?),
+            "csa" => Op::Csa(n(1)?),
+            "csi" => Op::Csi(n(1)?),
+            "cea" => Op::Cea(n(1)?),
+            "cka" => Op::Cka(n(1)?),
             "adv" => Op::Adv(n(1)?),
             "advabort" => Op::AdvAbort(n(1)?, n(2)? as usize),
             "advstop" => Op::AdvStop(n(1)?),
@@ -444,6 +458,32 @@ async fn run_case(tl: bool, ops: &[Op]) -> Vec<String> {
             Op::Dka(p) => {
                 let d = target.get_derived::<DMsg>();
                 timers.push(TimerRec { h: Handle::Unit(d.kill_after(ms(*p))), res: None })
+            }
+            Op::Csa(p) => {
+                let id = timers.len() as u32;
+                let (s2, t) = (sh.clone(), t0);
+                let h = ractor::time::send_after::<(u32, u32), _>(ms(*p), target.get_cell(), move || {
+                    s2.lock().unwrap().attempts.push((id, 1, now_ms(t)));
+                    (id, 1)
+                });
+                timers.push(TimerRec { h: Handle::Send(h), res: None });
+            }
+            Op::Csi(p) => {
+                let id = timers.len() as u32;
+                let (s2, t) = (sh.clone(), t0);
+                let k = AtomicU32::new(0);
+                let h = ractor::time::send_interval::<(u32, u32), _>(ms(*p), target.get_cell(), move || {
+                    let kk = k.fetch_add(1, Ordering::SeqCst) + 1;
+                    s2.lock().unwrap().attempts.push((id, kk, now_ms(t)));
+                    (id, kk)
+                });
+                timers.push(TimerRec { h: Handle::Unit(h), res: None });
+            }
+            Op::Cea(p) => {
+                timers.push(TimerRec { h: Handle::Unit(ractor::time::exit_after(ms(*p), target.get_cell())), res: None })
+            }
+            Op::Cka(p) => {
+                timers.push(TimerRec { h: Handle::Unit(ractor::time::kill_after(ms(*p), target.get_cell())), res: None })
             }
             Op::Adv(d) => tokio::time::advance(ms(*d)).await,
             Op::AdvAbort(d, i) => {
@@ -652,10 +692,14 @@ fn gen_case(rng: &mut Rng, st: &mut Stats) -> Vec<Op> {
         } else if r < 34 || n_timers == 0 {
             let k = rng.below(100);
             n_timers += 1;
-            if k < 27 {
+            if k < 6 {
+                Op::Csa(*rng.pick(&per))
+            } else if k < 27 {
                 Op::Sa(*rng.pick(&per))
             } else if k < 35 {
                 Op::Dsa(*rng.pick(&per))
+            } else if k < 41 {
+                Op::Csi(*rng.pick(&iper))
             } else if k < 62 {
                 Op::Si(*rng.pick(&iper))
             } else if k < 70 {
@@ -664,11 +708,15 @@ fn gen_case(rng: &mut Rng, st: &mut Stats) -> Vec<Op> {
                 // at most one exit_after per case: which of two simultaneous stop requests
                 // wins depends on tokio's wheel order, which the model does not describe
                 have_exit_after = true;
-                if rng.chance(1, 3) {
+                if rng.chance(1, 5) {
+                    Op::Cea(*rng.pick(&per))
+                } else if rng.chance(1, 3) {
                     Op::Dea(*rng.pick(&per))
                 } else {
                     Op::Ea(*rng.pick(&per))
                 }
+            } else if rng.chance(1, 5) {
+                Op::Cka(*rng.pick(&per))
             } else if rng.chance(1, 3) {
                 Op::Dka(*rng.pick(&per))
             } else {
@@ -712,6 +760,10 @@ fn ms_case(ops: Vec<Op>) -> Vec<Op> {
             Ka(p) => Ka(p * 1000),
             Dea(p) => Dea(p * 1000),
             Dka(p) => Dka(p * 1000),
+            Csa(p) => Csa(p * 1000),
+            Csi(p) => Csi(p * 1000),
+            Cea(p) => Cea(p * 1000),
+            Cka(p) => Cka(p * 1000),
             Adv(d) => Adv(d * 1000),
             AdvAbort(d, i) => AdvAbort(d * 1000, i),
             AdvStop(d) => AdvStop(d * 1000),
@@ -776,6 +828,18 @@ fn fixed_cases() -> Vec<Vec<Op>> {
         vec![Dka(2), AdvAbort(2, 0), Adv(5)],
         vec![Dea(7), Dka(7), Adv(7)],
         vec![Dka(2), Stop, Adv(2)],
+        // the free functions of time.rs called with an ActorCell
+        vec![Csa(0)],
+        vec![Cea(0)],
+        vec![Cka(0)],
+        vec![Csa(5), Csi(3), Adv(3), Adv(2), AdvAbort(1, 1), Kill, Adv(4)],
+        vec![Csi(3), Adv(3), Adv(3), Adv(2), Adv(1), Adv(10)],
+        vec![Cea(7), Adv(6), Adv(1)],
+        vec![Cka(2), Adv(1), Adv(1)],
+        vec![Csa(5), Cka(5), Adv(5)],
+        vec![Cea(7), Cka(7), Adv(7)],
+        vec![Kill, Csi(3), Csa(0), Csa(2), Cea(1), Cka(1), Adv(5)],
+        vec![Hold, Stop, Csa(0), Csi(2), Adv(2), PsRelease],
         // the target sits in a gated post_stop (stopped accepting, not gone)
         vec![Si(3), Hold, Adv(1), Stop, Sa(2), Adv(2), Adv(4), PsRelease],
         vec![Hold, Stop, Sa(0)],
@@ -819,6 +883,9 @@ fn fixed_cases() -> Vec<Vec<Op>> {
         vec![Sa(900), Dka(999), Adv(999), Adv(1)],
         vec![Si(700), Hold, AdvStop(1500), Adv(500), Adv(1000), Adv(1000), PsRelease],
         vec![Hold, Adv(300), Stop, Sa(700), Si(300), Adv(700), Adv(300), PsRelease],
+        vec![Cea(2500), Adv(2000), Adv(1000)],
+        vec![Adv(1500), Csa(700), Cka(1500), Adv(500), Adv(500), Adv(500), Adv(500)],
+        vec![Csi(300), Adv(500), Adv(500), Adv(1000)],
     ]);
     all
 }
